@@ -7,6 +7,7 @@
   kind and requested string.  `ms` is go-multistream's matcher (third-party): hypothesis `hms`.
 -/
 import SA.Model.Routing
+import SA.Gen.PkgVars
 namespace SA.Props.C03
 open SA.Routing SA.Gen
 
@@ -428,3 +429,15 @@ end SA.Props.C03
 #print axioms SA.Props.C03.C03_routeAt_iff
 #print axioms SA.Props.C03.C03_refusedAt_no_dial
 #print axioms SA.Props.C03.C03_endpoint_isolated
+
+namespace SA.PkgState
+/-- **no_hidden_process_state**: the models of this property are functions of their arguments and of the objects they are
+    handed; the packages they model keep no package-level variables besides these (regenerated inventory: error
+    sentinels, tables, compiled patterns, the two session time-outs).  A new package-level variable — a counter, a cache, a
+    scratch buffer, a shared map, a registry — would make later calls depend on earlier ones, or concurrent calls on each
+    other, outside anything a per-call comparison of model and code can see. -/
+theorem C03_no_hidden_process_state :
+    Gen.pkgVarNames_server = ["ChannelRegex"] := by decide
+end SA.PkgState
+
+#print axioms SA.PkgState.C03_no_hidden_process_state
